@@ -6,6 +6,7 @@ import itertools
 import numpy as np
 
 from proto import ET, arr_close, dec_natlist, dec_tens, natlist, run_driver
+from geolib import call_impl
 
 ID = "C05"
 LEAN_FILES = ["Geo/Props/C05.lean", "Geo/Props/C05b.lean"]
@@ -240,7 +241,40 @@ def eps_delta(ctx):
             ctx.count(r[0])
 
 
+def loop_edges(ctx, n):
+    """an edge whose two ends are the same node object (a trace): the contraction is the same whether the node has been added
+    before or is added by this very edge; compared with numpy's own einsum on the node's array"""
+    from geometer.base import Tensor, TensorDiagram
+    rng = ctx.rng
+    for k in range(n):
+        dim = rng.choice([2, 3])
+        extra = rng.choice([0, 1])                       # (1,1)- or (2,1)-tensor
+        shape = (dim,) * (2 + extra)
+        arr = np.array([rng.randint(-3, 3) for _ in range(dim ** (2 + extra))], dtype=float).reshape(shape)
+        cov = [0] if extra == 0 else rng.choice([[0], [0, 1]])
+        desc = f"loop edge on a tensor of shape {shape} covariant={cov} entries={arr.ravel().tolist()}"
+        ctx.case(desc, nontrivial=True)
+        ctx.count("loop-edge")
+        def fresh():
+            M = Tensor(arr, covariant=cov)
+            return TensorDiagram((M, M)).calculate()
+        def registered():
+            M = Tensor(arr, covariant=cov)
+            d = TensorDiagram()
+            d.add_node(M)
+            d.add_edge(M, M)
+            return d.calculate()
+        a, b = call_impl(fresh), call_impl(registered)
+        # the first covariant index is contracted with the first contravariant one
+        first_con = [i for i in range(len(shape)) if i not in cov][0]
+        exp = np.trace(arr, axis1=cov[0], axis2=first_con)
+        for name, r in (("fresh-node", a), ("registered-node", b)):
+            if r[0] != "ok" or np.shape(r[1].array) != np.shape(exp) or not np.allclose(r[1].array, exp):
+                ctx.disagree(f"C05:loop-edge:{name}", desc, np.asarray(exp).tolist(), r[1:3] if r[0] != "ok" else np.asarray(r[1].array).tolist(), replay=[desc])
+
+
 def correspondence(ctx):
+    loop_edges(ctx, ctx.budget(30, 300))
     # minimised past failures first
     import glob, json, os
     for f in sorted(glob.glob(os.path.join(os.path.dirname(__file__), "..", "..", "corpus", "C05", "*.json"))):
